@@ -62,6 +62,10 @@ fn main() {
         println!("{}", set.len());
         return;
     }
+    if args.prop == "gen06" {
+        props::c06::generate(&args);
+        return;
+    }
     if args.prop == "gen12" {
         // scenario generator for the jet1090 snapshot driver (C12); the judge is checkers/c12.py
         props::gen12::run(&args);
